@@ -210,6 +210,14 @@ def call_name(node):
     return ''
 
 
+def clone(node):
+    """A private copy of an expression / statement without the `_parent` back-links of the source model
+    (copy.deepcopy would follow them and copy the whole module)."""
+    if isinstance(node, ast.expr):
+        return ast.parse(ast.unparse(node), mode='eval').body
+    return ast.parse(ast.unparse(node)).body[0]
+
+
 def unparse(node):
     try:
         return ast.unparse(node)
